@@ -463,6 +463,67 @@ class BlockFn(EffFn):
         return "def %s (self_index : BitVec 32) (BLOCK : BitVec 64) : List BlockEv × BitVec 32 :=\n%s\n" % (self.name, body)
 
 
+def block_serde(repo):
+    """the serde helpers of src/rng/block.rs and the attributes that name them: `index` must carry
+    `serde(default = "default_index::<T>", skip_serializing_if = "is_index_oob::<T>")`, `random` `serde(default, skip_serializing_if = "is_default")`;
+    `is_index_oob(value)` and `default_index()` become functions over `BitVec 32` (the block size is the parameter `BLOCK`),
+    `is_default(value)` must be `*value == T::default()`; `BlockRngImpl::new` must set `index: !0` and `random: T::Output::default()`."""
+    src = open(os.path.join(repo, "src/rng/block.rs")).read()
+    text = re.sub(r"//[^\n]*", "", src)
+    flat = "".join(text.split())
+    for need, what in (('#[cfg_attr(feature="serde",serde(default="default_index::<T>",skip_serializing_if="is_index_oob::<T>"))]index:u32,', "the serde attributes of `index`"),
+                       ('#[cfg_attr(feature="serde",serde(default,skip_serializing_if="is_default"))]random:T::Output,', "the serde attributes of `random`"),
+                       ('fnis_default<T:Default+PartialEq>(value:&T)->bool{*value==T::default()}', "is_default"),
+                       ('BlockRngImpl{state,index:!0,random:T::Output::default(),}', "BlockRngImpl::new")):
+        if need not in flat:
+            raise TranslateError("src/rng/block.rs: %s" % what)
+    raw, _ = parse_fns(src)
+    out = []
+    for name in ("is_index_oob", "default_index"):
+        c = raw.get(name, [])
+        if len(c) != 1:
+            raise TranslateError("src/rng/block.rs: %s not found" % name)
+        params, ret, body = c[0]
+        sz = retok(tokenize("mem::size_of::<T::Output>()"))
+        b2, i = [], 0
+        while i < len(body):
+            if body[i:i + len(sz)] == sz:
+                b2.append(("id", "__BLOCK_SIZE"))
+                i += len(sz)
+            else:
+                b2.append(body[i])
+                i += 1
+        fn = EffFn("Urandom.Generated.Effect.block", name, b2, "\0none", "\0none")
+        fn.env = {"value": ("var", "value", ("u", 32))}
+        fn.lines = []
+        if fn.stmts or fn.tail is None:
+            raise TranslateError("src/rng/block.rs: %s is not one expression" % name)
+        e = fn.tail
+
+        def ex(e, expect=None):
+            if e[0] == "not" and e[1] == ("num", 0):
+                return "4294967295#32", ("u", 32)
+            if e[0] == "cast" and e[2] == ["u32"] and e[1] == ("id", "__BLOCK_SIZE"):
+                return "(BLOCK.setWidth 32)", ("u", 32)
+            if e[0] == "deref":
+                return ex(e[1], expect)
+            if e[0] == "bin" and e[1] in EffFn.CMP:
+                l, lt = ex(e[2])
+                r, rt = ex(e[3], lt)
+                return "decide (%s %s %s)" % (l, EffFn.CMP[e[1]], r), ("bool",)
+            return fn.expr(e, expect)
+        t, ty = ex(e)
+        if name == "is_index_oob":
+            if ty != ("bool",) or [p[0] for p in params] != ["value"]:
+                raise TranslateError("src/rng/block.rs: is_index_oob")
+            out.append("def is_index_oob (BLOCK : BitVec 64) (value : BitVec 32) : Bool :=\n  %s\n" % t)
+        else:
+            if ty != ("u", 32) or params:
+                raise TranslateError("src/rng/block.rs: default_index")
+            out.append("def default_index : BitVec 32 :=\n  %s\n" % t)
+    return "namespace block\n" + "\n".join(out) + "end block\n"
+
+
 def block_methods(repo):
     raw, _ = parse_fns(open(os.path.join(repo, "src/rng/block.rs")).read())
     helpers = {n: v for n, v in raw.items() if n not in ("next_u32", "next_u64", "fill_bytes", "jump", "new", "generate", "bytes", "is_default", "is_index_oob", "default_index")}
@@ -482,7 +543,7 @@ def generate_block(repo, out_dir, write):
     head = ("/- GENERATED by tools/extract_effect.py from src/rng/block.rs (next_u32, next_u64) on every run - do not edit. -/\n"
             "import Urandom.Model.Effect\nset_option linter.unusedVariables false\nnamespace Urandom.Generated.Effect\nopen Urandom\n\n")
     try:
-        text = head + block_methods(repo) + "\nend Urandom.Generated.Effect\n"
+        text = head + block_methods(repo) + "\n" + block_serde(repo) + "\nend Urandom.Generated.Effect\n"
     except Exception as e:
         msg = ("%s: %s" % (type(e).__name__, e)).replace("-/", "- /")
         text = ("/- tools/extract_effect.py could not translate the current source: %s -/\n"
